@@ -512,7 +512,7 @@ Example d18c_trace_is_safe :
               EFrame (FReply (Some 2%N) false (Some 8%N)); ERAddActive;
               EUnsubRemove 0 1; ECallReg 1; ECallSend 1 true;
               EFrame (FReply (Some 3%N) false None); ERDeliver; ECallRecv 1; ECallRemove 1;
-              EUnsubAfterCall 0; EUnsubClose 0;
+              EUnsubAfterCall 0 true; EUnsubClose 0;
               EFrame (FNotif (Some 7%N) 99%N)] winit with
   | Some w => negb (w_panic w) && w_straddle w &&
               match w_act w, w_rpc w, w_upc w 0 with [], RIdle, UDone true => true | _, _, _ => false end
